@@ -16,7 +16,7 @@ VARIANTS = ['asan-direct']
 RULE = ('Hypothesis: GDL-lite programs (1-3 passes, uniform pre-context 0..2, <=5 rules of length <=5 over overlapping classes, '
         'constraints over glyph attrs/user attrs/features, actions keep/put_glyph/put_subs/put_copy/insert/delete/assoc/attr sets, '
         'attachments in positioning passes) compiled by fontsynth (Silf v2-v5, Glat v1-v3) x glyph strings <=24 over the repertoire x '
-        'text direction x font direction x feature settings. Oracle: gdlmodel.py reference interpreter. Non-trivial: at some position '
+        'text direction x font direction x feature settings; class tables stored linear or as bisected lookup tables; biased sub-programs: slot recycling (mark, delete, insert), PUT_COPY of a marked slot, three marks on a base with the middle one re-attached. Oracle: gdlmodel.py reference interpreter. Non-trivial: at some position '
         '>=2 candidate rules matched and a rule fired. Distinct by (program, text, dir, features).')
 
 # indices into dump slot 'at' list (see harness/seginv.h)
